@@ -15,7 +15,7 @@ RULE = ("seeded sequences over the DNA / RNA / protein alphabets and arbitrary r
         "builder (own one-letter tables, 5'/3' rule, numbering from 1, linear edges, tree shape parent(k) = (k-1)//b, "
         "connects, degree-1 renaming, labels). non-trivial = input with >= 2 residues; distinct = hash(input text)"
         ' Later formats: .json graph files (any node keys / listing order, labelled edges, residue attributes), multi-record .fasta, RNA written with U, .ig titles ending in digits, cyclic peptides, gen_seq macros taken from .itp files, connect records naming the later block first.')
-ASSUMPTIONS = [".txt files are single-space separated without blank lines; .ig titles do not end in 1 or 2",
+ASSUMPTIONS = [".txt files are single-space separated without blank lines; .ig titles are a line of their own (ending in digits or made of nucleotide letters included)",
                "DNA/RNA sequences have >= 2 residues (the statement does not say how a residue that is both 5' and 3' "
                "terminal is named); protein and .txt inputs start at 1 residue"]
 CASE_TIMEOUT = 60
